@@ -228,6 +228,9 @@ func (qr *queryRequest) executeCallback(cb func(QueryRequest)) {
 
 // error sends an error response as a reply.
 func (qr *queryRequest) error(e *Error) {
+	if e == nil {
+		e = ErrInternalError
+	}
 	data, err := json.Marshal(errorResponse{Error: e})
 	if err != nil {
 		data = responseInternalError
